@@ -177,6 +177,8 @@ struct ThreadModel {
   uint32_t xacq_ver[kSlots] = {0, 0};  // ghost version at X grant begin, per X slot
   uint32_t xnew_ver[kSlots] = {0, 0};  // version that slot will publish
   char results[160] = {0};             // outcome string (values read, try results)
+  bool started = false;                // executed its first operation
+  int upgrading = -1;                  // SIX phase being converted by an UpgradeToX call in progress
   int down_result = -1;
 };
 
@@ -340,7 +342,7 @@ EndPhaseNow(int tid, int ph)
     // must leave the version alone in the word (documented layout: bits 32-63 are lock-mode state)
     const uint64_t w = Word(p.lock);
     if ((w >> 32U) != 0) {
-      vs::Violate("C09", "MODE-BITS-DISTURBED",
+      vs::Violate("C09,C07", "MODE-BITS-DISTURBED",
                   Fmt("T%d ended an exclusive grant on lock %d and left the word 0x%" PRIx64 ": the published version disturbed the lock-mode bits", tid, p.lock, w));
     }
   }
@@ -389,7 +391,7 @@ OnPost(int tid, const vs::Op &op, uint64_t observed, uint64_t written, bool wrot
       {
         const uint64_t w = Word(p.lock);
         if ((w >> 32U) != (1ULL << 30U)) {  // only the SIX flag (bit 62) may be set after a downgrade
-          vs::Violate("C09", "MODE-BITS-DISTURBED",
+          vs::Violate("C09,C07", "MODE-BITS-DISTURBED",
                       Fmt("T%d downgraded an exclusive grant on lock %d and left the word 0x%" PRIx64 ": the published version disturbed the lock-mode bits", tid, p.lock, w));
         }
       }
@@ -413,6 +415,44 @@ OnPost(int tid, const vs::Op &op, uint64_t observed, uint64_t written, bool wrot
     }
   }
 #endif
+#if LK != 2
+  if (l >= 0 && eff) {
+    // the documented word layout: X bit 63, SIX bit 62, shared counter above the version (optimistic: bits
+    // 32-61, pessimistic: bits 0-61). Every *registered* grant has certainly been acquired and not yet
+    // released, so it must be visible in the word: a write that makes a registered grant vanish has
+    // released more than its own grant (or corrupted the word).
+    const uint64_t w = Word(l);
+    uint64_t ns = 0;
+    bool six = false, x = false;
+    bool six_or_x = false;  // a SIX grant that is being upgraded right now may already show as X
+    for (size_t i = 0; i < GH->phases.size(); ++i) {
+      auto &p = GH->phases[i];
+      if (!p.active || p.lock != l) continue;
+      if (p.mode == M_S) ++ns;
+      if (p.mode == M_SIX) {
+        if (GH->tm[p.thread].upgrading == static_cast<int>(i)) {
+          six_or_x = true;
+        } else {
+          six = true;
+        }
+      }
+      if (p.mode == M_X) x = true;
+    }
+#if LK == 1
+    const uint64_t cnt = (w >> 32U) & ((1ULL << 30U) - 1ULL);
+#else
+    const uint64_t cnt = w & ((1ULL << 62U) - 1ULL);
+#endif
+    const bool wx = (w >> 63U) & 1U, wsix = (w >> 62U) & 1U;
+    if (cnt < ns || (six && !wsix) || (x && !wx) || (six_or_x && !wsix && !wx)) {
+      const std::string &mn = (tid < NT && tm.pc >= 0 && tm.pc < static_cast<int>(PROG.th[tid].size())) ? PROG.th[tid][tm.pc].mn : std::string("epilogue");
+      const bool comp = mn == "PR" || mn == "DC" || mn == "MC" || mn == "CC" || mn == "CV";
+      vs::Violate(comp ? "C01,C07,C13" : "C01,C07", "GRANT-VANISHED",
+                  Fmt("a write by T%d (%s) left lock %d with word 0x%" PRIx64 " although %" PRIu64 " S%s%s grant(s) of other guards are still held", tid,
+                      mn.c_str(), l, w, ns, six ? " + SIX" : "", x ? " + X" : ""));
+    }
+  }
+#endif
   if (l >= 0) {
     auto &s = tm.snap;
     s.valid = true;
@@ -427,11 +467,24 @@ OnPost(int tid, const vs::Op &op, uint64_t observed, uint64_t written, bool wrot
   }
 }
 
+// the calling thread's spare queue node, if the lock class keeps one in `tls_node_` (a refactored cache
+// of another shape is simply not tracked: check (b) of C12 is skipped, the others still apply)
+template <class L>
+const void *
+CachedNodeOf()
+{
+  if constexpr (requires { L::tls_node_.get(); }) {
+    return static_cast<const void *>(L::tls_node_.get());
+  } else {
+    return nullptr;
+  }
+}
+
 void
 OnPoint(int tid)
 {
 #if LK == 2
-  if (tid <= kMaxT) g_tls_node[tid] = Lock::tls_node_.get();
+  if (tid <= kMaxT) g_tls_node[tid] = CachedNodeOf<Lock>();
 #else
   (void)tid;
 #endif
@@ -555,7 +608,7 @@ struct Interp {
     h = vs::Mix(h, opt_valid ? (static_cast<uint64_t>(opt.GetVersion()) << 1) | 1U : 0);
 #endif
 #if LK == 2
-    h = vs::Mix(h, reinterpret_cast<uint64_t>(Lock::tls_node_.get()));
+    h = vs::Mix(h, reinterpret_cast<uint64_t>(CachedNodeOf<Lock>()));
 #endif
     h = vs::Mix(h, static_cast<uint64_t>(tm.last_read));
     h = vs::Mix(h, static_cast<uint64_t>(tm.ro_a) * 31 + static_cast<uint64_t>(tm.ro_b));
@@ -596,7 +649,7 @@ struct Interp {
   // a call that must release exactly the grant `ph` (or nothing when ph < 0)
   template <class F>
   void
-  Releasing(const char *what, int ph, uint32_t newver, F f)
+  Releasing(const char *what, int ph, uint32_t newver, F f, const char *props = "C07")
   {
     const uint32_t w0 = vs::Stat(tid).eff_writes;
     if (ph >= 0) {
@@ -608,11 +661,11 @@ struct Interp {
     if (ph >= 0) {
       if (tm.pend_end >= 0) {
         tm.pend_end = -1;
-        vs::Violate("C07", Fmt("NO-RELEASE:%s", what),
+        vs::Violate(props, Fmt("NO-RELEASE:%s", what),
                     Fmt("T%d: %s of an owning guard did not release its grant (no write to the lock)", tid, what));
       }
     } else if (vs::Stat(tid).eff_writes != w0) {
-      vs::Violate("C07", Fmt("SPURIOUS-RELEASE:%s", what),
+      vs::Violate(props, Fmt("SPURIOUS-RELEASE:%s", what),
                   Fmt("T%d: %s of a non-owning guard modified shared state", tid, what));
     }
   }
@@ -668,6 +721,7 @@ struct Interp {
   Run()
   {
     const auto &ops = PROG.th[tid];
+    tm.started = true;
     for (tm.pc = 0; tm.pc < static_cast<int>(ops.size()); ++tm.pc) {
       snprintf(label, sizeof label, "%s@%d", ops[tm.pc].text.c_str(), tm.pc);
       vs::SetCall(label);
@@ -680,11 +734,16 @@ struct Interp {
         // C12(c): live nodes <= threads + outstanding requests (granted or waiting)
         size_t outstanding = 0;
         for (auto &p : GH->phases) outstanding += p.active ? 1 : 0;
-        for (int u = 0; u < NT; ++u) outstanding += GH->tm[u].req.active ? 1 : 0;
+        size_t alive = 0;
+        for (int u = 0; u < NT; ++u) {
+          outstanding += GH->tm[u].req.active ? 1 : 0;
+          // a thread can keep one spare node from its first lock operation until it exits
+          alive += (GH->tm[u].started && !vs::HasFinished(u)) ? 1 : 0;
+        }
         const size_t live = vs::LiveBlocksOfSize(sizeof(Lock));
-        if (live > static_cast<size_t>(NT) + 1 + outstanding) {
+        if (live > alive + outstanding) {
           vs::Violate("C12", "NODE-BOUND",
-                      Fmt("%zu queue nodes are live with %d threads and %zu outstanding requests", live, NT + 1, outstanding));
+                      Fmt("%zu queue nodes are live with %zu running thread(s) and %zu outstanding request(s)", live, alive, outstanding));
         }
       }
 #endif
@@ -724,7 +783,7 @@ struct Interp {
 #endif
           break;
       }
-    });
+    }, kind == 3 ? "C07,C13" : "C07");
     tm.engaged[kind][s] = 0;
     tm.own[kind][s] = -1;
   }
@@ -833,7 +892,9 @@ Interp::Exec(const OpCode &o)
     long before = tm.last_read;
     (void)before;
     if (ph >= 0) vs::HbMark(tid, GH->phases[ph].bit);  // the SIX phase ends (program order) here
+    tm.upgrading = ph;
     X[d].emplace((*X6[s]).UpgradeToX());
+    tm.upgrading = -1;
     tm.engaged[2][d] = 1;
     if (ph >= 0) {
       const int l = GH->phases[ph].lock;
@@ -1041,7 +1102,7 @@ Interp::Exec(const OpCode &o)
       tm.engaged[3][d] = 1;
       tm.own[3][d] = -1;
     }
-    Releasing("move-assignment(Composite)", tm.own[3][d], 0, [&] { *C[d] = std::move(*C[s]); });
+    Releasing("move-assignment(Composite)", tm.own[3][d], 0, [&] { *C[d] = std::move(*C[s]); }, "C07,C13");
     tm.own[3][d] = tm.own[3][s];
     tm.own[3][s] = -1;
     tm.comp_commits[d] = tm.comp_commits[s];
@@ -1156,10 +1217,10 @@ Teardown()
     const uint64_t w = Word(l);
 #if LK == 1
     const uint64_t want = GH->ghost_ver[l];
-    const char *props = "C02,C09";
+    const char *props = "C02,C09,C07";
 #else
     const uint64_t want = 0;
-    const char *props = "C02";
+    const char *props = "C02,C07";
 #endif
     if (w != want) {
       vs::Violate(props, "FINAL-WORD",
@@ -1200,7 +1261,7 @@ GhostDigest()
   h = vs::Mix(h, GH->arrivals);
   for (int t = 0; t <= NT; ++t) {
     auto &tm = GH->tm[t];
-    h = vs::Mix(h, static_cast<uint64_t>(tm.pend_end + 3) * 256 + static_cast<uint64_t>(tm.pend_down + 3));
+    h = vs::Mix(h, static_cast<uint64_t>(tm.pend_end + 3) * 256 + static_cast<uint64_t>(tm.pend_down + 3) + static_cast<uint64_t>(tm.upgrading + 2) * 65536);
     h = vs::Mix(h, tm.pend_newver);
     h = vs::Mix(h, tm.req.active ? (1 + tm.req.arrival * 8 + tm.req.mode * 2 + static_cast<uint64_t>(tm.req.lock) * 1024) : 0);
     if (tm.snap.valid) {
